@@ -47,7 +47,9 @@ QTypes == {"A", "AAAA", "TXT"}
 Rec(t, ip) == [t |-> t, ip |-> ip]
 AnswerSeqs == { <<>>, <<Rec("A", A4(10,1,2,3))>>, <<Rec("A", A4(11,0,0,0))>>, <<Rec("AAAA", V6(1))>>, <<Rec("AAAA", Doc6)>>,
                 <<Rec("CNAME", NoAdr), Rec("A", A4(11,0,0,0)), Rec("A", A4(10,0,0,0))>>, <<Rec("TXT", NoAdr)>>,
-                <<Rec("AAAA", V6(1)), Rec("A", A4(11,0,0,0))>> }
+                <<Rec("AAAA", V6(1)), Rec("A", A4(11,0,0,0))>>,
+                <<Rec("A", A4(0,0,0,0))>>, <<Rec("AAAA", Adr(6, <<0,0,0,0,0,0,0,0,0,0,0,0,0,0,0,0>>))>>,      \* sinkholed answers
+                <<Rec("A", A4(0,0,0,0)), Rec("A", A4(11,0,0,0))>> }
 \* what each server answers (independent of the name): two profiles
 AnsOf(p, srv, qt) ==
   IF p = 1 THEN
@@ -76,7 +78,8 @@ G(vs) == <<[key |-> "", vals |-> vs]>>
 QTypeVals == { <<"a">>, <<"aaaa">>, <<"a", "AAAA">>, <<"16">>, <<"0x1c">>, <<"txt", "28">> }
 TypeOfVal(v) == CASE v \in {"a", "A", "1"} -> "A" [] v \in {"aaaa", "AAAA", "28", "0x1c"} -> "AAAA" [] OTHER -> "TXT"
 IpVals == { <<P4(10,0,0,0,8)>>, <<P4(10,1,2,3,32)>>, <<P4(0,0,0,0,0)>>, <<Pfx(6, V6(0).b, 8)>>, <<Pfx(6, V6(0).b, 0)>>,
-            <<Pfx(6, V6(1).b, 128), P4(11,0,0,0,8)>> }
+            <<Pfx(6, V6(1).b, 128), P4(11,0,0,0,8)>>,
+            <<P4(0,0,0,0,32)>>, <<Pfx(6, <<0,0,0,0,0,0,0,0,0,0,0,0,0,0,0,0>>, 128), P4(0,0,0,0,8)>> }
 UpVals == { <<"u1">>, <<"u2">>, <<"u3">>, <<"u1", "u2">> }
 
 Cond(fn, not, groups) == [fn |-> fn, not |-> not, groups |-> groups]
@@ -183,30 +186,33 @@ VARIABLES req, resp,        \* request / response rule lists
           cur, phase,       \* rule being written; "req" | "resp" | "run"
           reqFb, respFb, profile,
           cache,            \* set of [name, qtype, scope, ans]: answers kept, scoped by the upstream the question was routed to
+          swapped,          \* a reload exchanged the URLs of u1 (and u3) and u2: the declarations keep their names and positions
           hist
-vars == <<req, resp, cur, phase, reqFb, respFb, profile, cache, hist>>
+vars == <<req, resp, cur, phase, reqFb, respFb, profile, cache, swapped, hist>>
 
 Init == /\ req = <<>> /\ resp = <<>> /\ cur = <<>> /\ phase = "req"
         /\ reqFb \in (IF MaxReqRules = 0 /\ MaxQueries = 0 THEN {"asis"} ELSE ReqFallbacks)        \* (vector-only configurations
         /\ respFb \in (IF MaxRespRules = 0 /\ MaxQueries = 0 THEN {"accept"} ELSE RespFallbacks)   \*  do not multiply by the unused side)
         /\ profile \in (IF MaxQueries = 0 THEN {1} ELSE Profiles)
-        /\ cache = {} /\ hist = <<>>
+        /\ cache = {} /\ swapped = FALSE /\ hist = <<>>
 
 AddCond == /\ phase \in {"req", "resp"} /\ Len(cur) < MaxConds
            /\ IF phase = "req" THEN Len(req) < MaxReqRules ELSE Len(resp) < MaxRespRules
            /\ \E cd \in Universe(IF phase = "req" THEN ReqFns ELSE RespFns) : cur' = Append(cur, cd)
-           /\ UNCHANGED <<req, resp, phase, reqFb, respFb, profile, cache, hist>>
+           /\ UNCHANGED <<req, resp, phase, reqFb, respFb, profile, cache, swapped, hist>>
 CloseRule == /\ cur # <<>>
              /\ \/ /\ phase = "req" /\ \E o \in ReqOuts : req' = Append(req, [conds |-> cur, out |-> o]) /\ UNCHANGED resp
                 \/ /\ phase = "resp" /\ \E o \in RespOuts : resp' = Append(resp, [conds |-> cur, out |-> o]) /\ UNCHANGED req
              /\ cur' = <<>>
-             /\ UNCHANGED <<phase, reqFb, respFb, profile, cache, hist>>
+             /\ UNCHANGED <<phase, reqFb, respFb, profile, cache, swapped, hist>>
 NextPhase == /\ cur = <<>> /\ phase \in {"req", "resp"}
              /\ phase' = IF phase = "req" THEN "resp" ELSE "run"
-             /\ UNCHANGED <<req, resp, cur, reqFb, respFb, profile, cache, hist>>
+             /\ UNCHANGED <<req, resp, cur, reqFb, respFb, profile, cache, swapped, hist>>
 
-ScopeOf(o) == IF o = "asis" THEN "asis" ELSE SrvOf(o)
-ServerOf(o) == IF o = "asis" THEN "s1" ELSE SrvOf(o)
+Other(sv) == IF sv = "s1" THEN "s2" ELSE "s1"
+SrvNow(u) == IF swapped THEN Other(SrvOf(u)) ELSE SrvOf(u)          \* which server the declaration points at in this generation
+ScopeOf(o) == IF o = "asis" THEN "asis" ELSE SrvNow(o)              \* an answer is reusable only for questions sent to the same resolver
+ServerOf(o) == IF o = "asis" THEN "s1" ELSE SrvNow(o)
 \* the upstream conversation of one cache miss: steps = <<[srv, from, ans, dec]>>
 RECURSIVE Resolve(_, _, _, _)
 Resolve(q, up, depth, steps) ==
@@ -242,7 +248,11 @@ Preload(q, scope) ==
 Questions == IF Level = "single" THEN {[name |-> n, qtype |-> t] : n \in Names, t \in QTypes}
              ELSE {[name |-> n, qtype |-> t] : n \in {DomAB, DomB, DomUp}, t \in {"A", "AAAA"}}
 Ask == /\ phase = "run" /\ Len(hist) < MaxQueries
-       /\ \E q \in Questions : Handle(q) \/ \E sc \in {"asis", "s1", "s2"} : Preload(q, sc)
+       /\ \/ /\ \E q \in Questions : Handle(q) \/ \E sc \in {"asis", "s1", "s2"} : Preload(q, sc)
+             /\ UNCHANGED swapped
+          \/ /\ swapped' = ~swapped        \* reload with the upstream URLs exchanged; the cache is carried over
+             /\ UNCHANGED cache
+             /\ hist' = Append(hist, [q |-> [name |-> <<>>, qtype |-> "A"], route |-> "", src |-> "reload", steps |-> <<>>, kind |-> "reply", ans |-> <<>>])
        /\ UNCHANGED <<req, resp, cur, phase, reqFb, respFb, profile>>
 
 Next == AddCond \/ CloseRule \/ NextPhase \/ Ask
@@ -269,7 +279,7 @@ ReplyIsLastAnswer == \A i \in 1..Len(hist) : (hist[i].src = "upstream" /\ hist[i
                         (s.dec = "accept" /\ hist[i].ans = s.ans) \/ (s.dec = "reject" /\ hist[i].ans = <<>>)
 \* every step but the last was sent on by a response rule naming the next upstream
 ChainFollowsRules == \A i \in 1..Len(hist) : \A k \in 1..(Len(hist[i].steps) - 1) : hist[i].steps[k].dec = hist[i].steps[k + 1].from
-View == <<req, resp, cur, phase, reqFb, respFb, profile, cache, Len(hist)>>
+View == <<req, resp, cur, phase, reqFb, respFb, profile, cache, swapped, Len(hist)>>
 
 (* ------------------------------------------------------------------ emission *)
 Config == [req |-> req, resp |-> resp, reqFb |-> reqFb, respFb |-> respFb, profile |-> profile]
